@@ -104,15 +104,31 @@ class CliSampler:
         return d
 
     def record(self, label, paths, password, expect, cmds, exact=True):
-        self.out.append({"label": label, "paths": [self.sb.path(p) for p in paths], "password": password,
+        self.out.append({"label": label + ("+stale-outputs" if getattr(self, "stale_round", False) else ""), "paths": [self.sb.path(p) for p in paths], "password": password,
                          "expect": expect, "cmd": " && ".join(cmds), "exact": exact})
 
+    STALE = b"STALE-OUTPUT-OF-AN-EARLIER-RUN"
+
+    def make_stale(self, d):
+        """occupy every path a writer of this round may write with an older, LONGER file: with --overwrite the
+        tool must replace it completely (a part file that keeps the tail of its predecessor is not a PNA file)"""
+        os.makedirs(self.sb.path(d, "out"), exist_ok=True)
+        names = ["a.pna", "b.pna", "c.pna", "joined.pna"] + ["a.part%d.pna" % i for i in range(1, 9)] + ["out/a.part%d.pna" % i for i in range(1, 9)]
+        for n in names:
+            with open(self.sb.path(d, n), "wb") as f:
+                f.write(self.STALE + bytes(self.rnd.getrandbits(8) for _ in range(64)) * 1500)
+
+    def is_stale(self, path):
+        with open(path, "rb") as f:
+            return f.read(len(self.STALE)) == self.STALE
+
     def parts_of(self, d, base):
-        """base.pna or base.part1.pna, base.part2.pna, ... in directory d"""
-        if os.path.exists(self.sb.path(d, base + ".pna")):
+        """base.pna or base.part1.pna, base.part2.pna, ... in directory d (a file still holding the untouched
+        stale content was not written by this run)"""
+        if os.path.exists(self.sb.path(d, base + ".pna")) and not self.is_stale(self.sb.path(d, base + ".pna")):
             return [os.path.join(d, base + ".pna")]
         ps, i = [], 1
-        while os.path.exists(self.sb.path(d, "%s.part%d.pna" % (base, i))):
+        while os.path.exists(self.sb.path(d, "%s.part%d.pna" % (base, i))) and not self.is_stale(self.sb.path(d, "%s.part%d.pna" % (base, i))):
             ps.append(os.path.join(d, "%s.part%d.pna" % (base, i)))
             i += 1
         return ps
@@ -128,7 +144,12 @@ class CliSampler:
             enc = rnd.choice(CIPHERS) + rnd.choice(KDFS) + ["--password", pw]
         keep = [o for o in ["--keep-dir", "--keep-timestamp", "--keep-permission", "--keep-xattr"] if rnd.random() < 0.5]
         kd = "--keep-dir" in keep
-        base = ["create", d + "/a.pna", "-r", d + "/src", "--quiet"] + codec + enc + keep
+        stale = rnd.random() < 0.35
+        ow = ["--overwrite"] if stale else []
+        self.stale_round = stale
+        if stale:
+            self.make_stale(d)
+        base = ["create", d + "/a.pna", "-r", d + "/src", "--quiet"] + codec + enc + keep + ow
         exp = tree_expect(self.sb.path(d, "src"), d + "/src", kd)
         pwargs = ["--password", pw] if pw else []
 
@@ -137,12 +158,16 @@ class CliSampler:
         kind = kinds[self.n % len(kinds)]
         hist = []
         if kind == "create":
+            if rnd.random() < 0.15:
+                # owner names at the limit of the fPRM encoding (one length byte): 255 bytes must work, more must be refused
+                base = base + ([] if "--keep-permission" in keep else ["--keep-permission"]) + \
+                    [rnd.choice(["--uname", "--gname"]), rnd.choice(["u" * 255, "n" * 256, "\u00e9" * 150])]
             r = self.pna(base); hist.append(cmdtext(base))
             if r["rc"] == 0:
                 self.record("cli:create", [d + "/a.pna"], pw, exp, hist)
         elif kind == "dot":
             # the current directory itself as the source: `.` names no entry (it used to be written with the empty name)
-            a = ["create", "../a.pna", "-r", rnd.choice([".", "./"]), "--quiet"] + codec + enc + keep + (["--solid"] if rnd.random() < 0.3 else [])
+            a = ["create", "../a.pna", "-r", rnd.choice([".", "./"]), "--quiet"] + codec + enc + keep + ow + (["--solid"] if rnd.random() < 0.3 else [])
             r = self.pna(a, cwd=self.sb.path(d, "src")); hist.append("cd %s/src && %s" % (d, cmdtext(a)))
             if r["rc"] == 0:
                 self.record("cli:create-dot", [d + "/a.pna"], pw, tree_expect(self.sb.path(d, "src"), "", kd), hist)
@@ -159,23 +184,23 @@ class CliSampler:
         elif kind == "splitcmd":
             r = self.pna(base); hist.append(cmdtext(base))
             if r["rc"] == 0:
-                os.makedirs(self.sb.path(d, "out"))
-                a = ["split", d + "/a.pna", "--max-size", str(rnd.choice([80, 120, 200, 400])), "--out-dir", d + "/out"]
+                os.makedirs(self.sb.path(d, "out"), exist_ok=True)
+                a = ["split", d + "/a.pna", "--max-size", str(rnd.choice([80, 120, 200, 400])), "--out-dir", d + "/out"] + ow
                 r = self.pna(a); hist.append(cmdtext(a))
                 if r["rc"] == 0:
                     ps = self.parts_of(d + "/out", "a")
                     self.record("cli:split", ps, pw, exp, hist)
                     # and back together
-                    a = ["concat", d + "/joined.pna", ps[0]]
+                    a = ["concat", d + "/joined.pna", ps[0]] + ow
                     r = self.pna(a); hist.append(cmdtext(a))
                     if r["rc"] == 0:
                         self.record("cli:concat-parts", [d + "/joined.pna"], pw, exp, hist)
         elif kind == "concat":
             cli.gen_tree(rnd, self.sb.path(d, "src2"), max_files=3)
-            b2 = ["create", d + "/b.pna", "-r", d + "/src2", "--quiet"] + rnd.choice(CODECS) + enc + keep
+            b2 = ["create", d + "/b.pna", "-r", d + "/src2", "--quiet"] + rnd.choice(CODECS) + enc + keep + ow
             r1 = self.pna(base); r2 = self.pna(b2); hist += [cmdtext(base), cmdtext(b2)]
             if r1["rc"] == 0 and r2["rc"] == 0:
-                a = ["concat", d + "/c.pna", d + "/a.pna", d + "/b.pna"]
+                a = ["concat", d + "/c.pna", d + "/a.pna", d + "/b.pna"] + ow
                 r = self.pna(a); hist.append(cmdtext(a))
                 e2 = dict(exp); e2.update(tree_expect(self.sb.path(d, "src2"), d + "/src2", kd))
                 if r["rc"] == 0:
@@ -244,7 +269,7 @@ class CliSampler:
                         f.write(r["out"])
                     self.record("cli:stdio-stdout", [d + "/a.pna"], pw, exp, hist)
             else:
-                a += ["-f", d + "/a.pna"]
+                a += ["-f", d + "/a.pna"] + ow
                 r = self.pna(a); hist.append(cmdtext(a))
                 if r["rc"] == 0:
                     self.record("cli:stdio-file", [d + "/a.pna"], pw, exp, hist)
